@@ -1047,6 +1047,10 @@ int tls_record_get_handshake_certificate(const uint8_t *record, uint8_t *certs, 
 			error_print();
 			return -1;
 		}
+		if (*certslen + alen > TLS_MAX_CERTIFICATES_SIZE) {
+			error_print();
+			return -1;
+		}
 		if (x509_cert_from_der(&cert, &certlen, &a, &alen) != 1
 			|| asn1_length_is_zero(alen) != 1
 			|| x509_cert_to_der(cert, certlen, &certs, certslen) != 1) {
